@@ -388,7 +388,7 @@ def inline_pure(f, b, t, args):
         pass
 
     def sub(x):
-        if not isinstance(x, tuple):
+        if not isinstance(x, tuple) or not x:
             return x
         k = x[0]
         if k == "param":
